@@ -100,7 +100,7 @@ def gsub_groups(ctx, shim, r, nfonts, per_font, types=(1, 2, 3, 4, 5, 6, 8), nmu
             rec = multi_recipe(rm)
             feats = gsubgen.user_features(rm, rec)
         else:
-            rec = gsubgen.rand_recipe(r, types=types)
+            rec = gsubgen.rand_recipe(r, types=types, expansion=(1, 4))
             feats = gsubgen.user_features(r, rec)
         try:
             hexf = fontbuild.hexfont(rec)
@@ -213,7 +213,7 @@ def spec_search(ctx, shim, model, groups, recs):
     a = vlib.run_groups(shim, groups, timeout=300)
     sgroups = [[g[0]] + ["gsubspec" + ln[4:] for ln in g[1:]] for g in groups]
     b = vlib.run_groups(model, sgroups, timeout=300)
-    n = indom = withcl = bad = changed = grew = shrank = 0
+    n = indom = withcl = bad = changed = grew = shrank = expn = grown = 0
     for g, rec, xs, ys in zip(groups, recs, a, b):
         for ln, x, y in zip(g[1:], xs[1:], ys[1:]):
             n += 1
@@ -226,6 +226,9 @@ def spec_search(ctx, shim, model, groups, recs):
             if out["n"] > st["n"]: grew += 1
             if out["n"] < st["n"]: shrank += 1
             got = [(i[0], i[2]) for i in out["I"][:out["n"]]]
+            if rec.get("profile") == "expansion":
+                expn += 1
+                if out["n"] >= st["n"] + 2: grown += 1
             t = y.split()
             want = [] if len(t) < 3 or t[2] == "-" else [tuple(int(v) for v in e.split(":")) for e in t[2].split(",")]
             if [p[0] for p in got] != [i[0] for i in st["I"][:st["n"]]]:
@@ -243,10 +246,14 @@ def spec_search(ctx, shim, model, groups, recs):
                                    "recipe": rec, "crate": got, "spec_model": want, "clusters_compared": cmpcl})
     ctx.note_search("gsub-spec", n, indom, in_domain=indom, clusters_compared=withcl, glyphs_substituted=changed,
                     string_grew=grew, string_shrank=shrank, top_level_multiple_seq_lengths=multi_seq_lengths(recs),
-                    deviations=bad,
+                    expansion_profile=expn, expansion_grew_by_two_or_more=grown, deviations=bad,
                     rule="the gsub-interp requests; non-trivial = inside the documented domain of unambiguity (no default "
                          "ignorables, ligature lookups without ignore flags, nested lookups single-position and non-shrinking); "
-                         "glyph ids always compared, clusters too unless the font has a deleting lookup")
+                         "glyph ids always compared, clusters too unless the font has a deleting lookup; a quarter of the fonts "
+                         "come from the expansion profile of tools/gsubgen.py (contextual / chained rules of all three formats whose "
+                         "first records are 1 -> 3..5 multiple substitutions and whose later records address every place of the grown "
+                         "sequence — each added glyph, the shifted originals, past the end — through nested single / alternate / "
+                         "multiple lookups that give every glyph a target of its own)")
 
 
 
@@ -286,7 +293,7 @@ def shape_spec_search(ctx, shim, model, r, nfonts, per_font):
     import fontbuild
     fonts = []
     for k in range(nfonts):
-        rec = gsubgen.rand_recipe(r, types=(1, 2, 3, 4, 5, 6, 8))
+        rec = gsubgen.rand_recipe(r, types=(1, 2, 3, 4, 5, 6, 8), expansion=(1, 4))
         feats = rec["gsub"]["features"]
         nf = len(feats)
         listed = [i for i in range(nf) if r.chance(3, 4)]
@@ -324,7 +331,8 @@ def shape_spec_search(ctx, shim, model, r, nfonts, per_font):
             mt = str(len(order)) + "".join(f" {i} {GLOBAL_BIT} 1 1 0 0" for i in order)
             n = rec["num_glyphs"]
             k = r.range(1, 8)
-            gl = [r.range(1, n - 1) for _ in range(k)]
+            gl = gsubgen.rand_glyphs(r, rec, k)
+            k = len(gl)
             info = [(g, 0xFFFFFFF8, i, 0, 7) for i, g in enumerate(gl)]
             st = {"L": 0, "F": 0, "M": max(64 * k, 16384), "O": max(1024 * k, 16384), "h": 0, "s": 0, "i": 0, "n": k,
                   "o": 0, "I": info, "U": [(0, 0, 0, 0, 0)] * k}
@@ -335,7 +343,7 @@ def shape_spec_search(ctx, shim, model, r, nfonts, per_font):
         g_shape.append(ls); g_spec.append(lm); meta.append(mm)
     a = vlib.run_groups(shim, g_shape, timeout=300)
     b = vlib.run_groups(model, g_spec, timeout=300)
-    n = indom = bad = reqd = 0
+    n = indom = bad = reqd = expn = grown = 0
     for ls, lm, mm, xs, ys in zip(g_shape, g_spec, meta, a, b):
         for ln, sl, (rec, st, user, order), x, y in zip(ls[1:], lm[1:], mm, xs[1:], ys[1:]):
             n += 1
@@ -345,6 +353,9 @@ def shape_spec_search(ctx, shim, model, r, nfonts, per_font):
             indom += 1
             if rec["gsub"]["scripts"][0]["default"]["required"] is not None: reqd += 1
             got = [tuple(int(v) for v in e.split(":")[:2]) for e in x.split()[2:]]
+            if rec.get("profile") == "expansion":
+                expn += 1
+                if len(got) >= st["n"] + 2: grown += 1
             t = y.split()
             want = [] if len(t) < 3 or t[2] == "-" else [tuple(int(v) for v in e.split(":")) for e in t[2].split(",")]
             same = (got == want) if cmpcl else ([p[0] for p in got] == [p[0] for p in want])
@@ -355,7 +366,8 @@ def shape_spec_search(ctx, shim, model, r, nfonts, per_font):
                                   {"stage": "search", "stream": "gsub-shape-spec", "font_line": ls[0], "request": ln, "spec_request": sl,
                                    "recipe": rec, "user_features": user, "prescribed_lookup_order": order, "crate": got,
                                    "spec_model": want, "clusters_compared": cmpcl})
-    ctx.note_search("gsub-shape-spec", n, indom, in_domain=indom, with_required_feature=reqd, deviations=bad,
+    ctx.note_search("gsub-shape-spec", n, indom, in_domain=indom, with_required_feature=reqd, expansion_profile=expn,
+                    expansion_grew_by_two_or_more=grown, deviations=bad,
                     rule="generated GSUB/GDEF fonts with a DFLT language system that lists a subset of the features and may have a required "
                          "feature (listed or not, known or unknown tag, 'rvrn'), global user features on/off, through the public shape(); "
                          "expected = Spec.applyAll over the lookup order computed from the recipe by plan_by_the_text (stage 0: rvrn and "
